@@ -1,4 +1,4 @@
-import TinsModel.Wire.Ip6.ThCodec
+import TinsModel.Wire.Ip6.ThFindings
 /-
   Family-level theorems of Ip6 for the four wire properties, over the interface the registry uses
   (`Ip6.parse`, `Ip6.hdr`, `Ip6.trl`, `Ip6.write`, `Ip6.mk`, `Ip6.apply`) — same shapes as `L2/ThFamily.lean`.
